@@ -851,7 +851,7 @@ func grpcErrorToTrailer(bufferPool *bufferPool, trailer http.Header, protobuf Co
 		return
 	}
 	if connectErr, ok := asError(err); ok {
-		mergeHeaders(trailer, connectErr.meta)
+		mergeMetadataHeaders(trailer, connectErr.meta)
 	}
 	trailer.Set(grpcHeaderStatus, code)
 	trailer.Set(grpcHeaderMessage, grpcPercentEncode(bufferPool, status.Message))
